@@ -1390,6 +1390,8 @@ def assemble(repo, unit, cfg, opts=None):
 
     def emit_module(mod):
         its = modules.get(mod, [])
+        if mod != "crate":
+            asm.emit("use vstd::prelude::*;\n")
         if unit.get("broadcast", True):
             asm.emit("broadcast use crate::vf_lemmas::vf_lemma_subrange_full;\n")
         for u in ov.uses.get(mod, []):
